@@ -7,7 +7,7 @@ use rlverif::*;
 use sched_common::*;
 
 pub const GATES: &[&str] = &[
-    "cmd.begin", "txn.pinned", "txn.locked", "vm.commit.begin", "vm.committed", "cp.pinned",
+    "cmd.begin", "txn.lock.begin", "txn.pinned", "txn.locked", "vm.commit.begin", "vm.committed", "cp.pass.begin",
     "cp.table", "cp.locked", "cp.pass.end", "vac.find",
 ];
 
